@@ -25,7 +25,7 @@ def plan(tier):
                 'sendall (successes, each error class, parse failures, authentication failures, unsupported '
                 'versions, stale/future time stamps, asynchronous/UNDO requests, oversize replacement) is '
                 'checked against the envelope rules; a cell is (source, class or operation, version, outcome)',
-        'min_monitor': {'encodings_validated': 5000, 'primitives_compared_with_reference': 150,
+        'min_monitor': {'encodings_validated': 5000, 'primitives_compared_with_reference': 150, 'primitive_writes_observed': 50000,
                         'responses_validated': 400, 'error_responses_validated': 100},
         'assumptions': ['kv/ttlv_ref.py transcribes KMIP 1.x section 9.1',
                         'a reply to a request the session did not decode may carry version 1.0',
@@ -95,7 +95,84 @@ def validating_encode(ctx):
     return real, enc
 
 
+class PrimitiveWriteMonitor(object):
+    """Invariant at a hook: every time a primitive writes itself (wherever it sits inside a structure, payload or
+    message, in whatever workload), the bytes it appended to the stream must be the reference encoding of the tag,
+    type and value the object holds at that moment.  Catches what the top-level comparison cannot: an item written
+    under a tag it no longer has, or a nested primitive whose bytes are well-formed but not its value."""
+    TYPES = None
+
+    def __init__(self, ctx):
+        from kmip.core import primitives as P
+        self.ctx = ctx
+        self.P = P
+        self.saved = []
+        self.table = [(P.Integer, T.INTEGER), (P.LongInteger, T.LONG), (P.BigInteger, T.BIGINT), (P.Enumeration, T.ENUM),
+                      (P.Boolean, T.BOOL), (P.TextString, T.TEXT), (P.ByteString, T.BYTES), (P.DateTime, T.DATETIME),
+                      (P.Interval, T.INTERVAL)]
+
+    def __enter__(self):
+        for cls, typ in self.table:
+            real = cls.__dict__.get('write')
+            if real is None:
+                continue
+            if any(c is cls for c, _ in self.saved):
+                continue
+            self.saved.append((cls, real))
+            setattr(cls, 'write', self.wrap(real, typ))
+        return self
+
+    def __exit__(self, *a):
+        for cls, real in self.saved:
+            setattr(cls, 'write', real)
+        self.saved = []
+
+    def wrap(self, real, typ):
+        ctx = self.ctx
+
+        def write(obj, ostream, *a, typ=typ, **kw):
+            try:
+                typ = obj.type.value            # DateTime writes itself through LongInteger.write
+                before = len(ostream.buffer)
+            except Exception:
+                return real(obj, ostream, *a, **kw)
+            real(obj, ostream, *a, **kw)
+            try:
+                out = bytes(ostream.buffer[before:])
+                v = obj.value
+                if typ == T.ENUM:
+                    v = v.value
+                tag = obj.tag.value if hasattr(obj.tag, 'value') else int(obj.tag)
+                ref = T.encode((tag, typ, v))
+            except Exception:
+                ctx.count('primitive_writes_not_comparable')
+                return
+            ctx.count('primitive_writes_observed')
+            if out != ref:
+                name = {T.INTEGER: 'Integer', T.LONG: 'LongInteger', T.BIGINT: 'BigInteger', T.ENUM: 'Enumeration',
+                        T.BOOL: 'Boolean', T.TEXT: 'TextString', T.BYTES: 'ByteString', T.DATETIME: 'DateTime',
+                        T.INTERVAL: 'Interval'}[typ]
+                if out[:3] != ref[:3] and out[3:] == ref[3:]:
+                    why = 'stale-tag'
+                elif typ == T.BIGINT and len(out) > len(ref):
+                    why = 'bigint-not-minimal'
+                else:
+                    why = 'bytes-differ'
+                key = 'reference|%s|%s' % (name, why)
+                if ctx.wants(key):
+                    ctx.violation(key, 'a %s (%s) holding tag %06X and value %s wrote %s where the reference encoding is %s'
+                                  % (name, type(obj).__name__, tag, c01.short(v), out.hex()[:96], ref.hex()[:96]), None)
+                else:
+                    ctx.violation(key, 'further witness', None)
+        return write
+
+
 def run_case(ctx, case):
+    with PrimitiveWriteMonitor(ctx):
+        _run_case(ctx, case)
+
+
+def _run_case(ctx, case):
     if 'prim' in case:
         run_prims(ctx)
     elif 'classes' in case:
